@@ -4,7 +4,8 @@ import json, os, subprocess
 HERE = os.path.dirname(os.path.dirname(os.path.abspath(__file__)))
 
 NOTE = ("Trusted base: Lean 4.33 kernel; axioms propext / Classical.choice / Quot.sound only (audited per run); the extractor "
-        "(tables and constants), the Rust harness and the Python orchestrator; Bevy (ECS, observers, command queue, scheduler, time, "
+        "(tables and constants), the Rust->Lean translator of function bodies (tools/rs2lean.py, tools/codegen.py) with its prelude "
+        "BEI/Model/Rs.lean (glam vectors, bitflags, Into, Time getters modelled), the Rust harness and the Python orchestrator; Bevy (ECS, observers, command queue, scheduler, time, "
         "input), glam, libm and f32 arithmetic are modelled (exact rationals on exact grids), not verified.")
 
 # id -> (technique, level text, design ref)
@@ -117,12 +118,33 @@ CLAIMED = {
 
 PENDING = {}
 
+# property -> source functions that are re-translated into Lean on every run and proved equal to the model (BEI/Bridge/*.lean)
+BRIDGE = {
+    "C01": "ActionEvents::new, ActionData::update",
+    "C02": "ActionEvents::new",
+    "C03": "TriggerTracker::{new, state, overwrite, combine (flags, conversion)}, the flag update of apply_conditions, ActionValue::*",
+    "C04": "TriggerTracker::{overwrite, combine (flags, conversion)}, ActionValue::*",
+    "C10": "ActionData::update",
+    "C11": "ConditionTimer::{update, reset, duration}, evaluate of Press, JustPress, Release, Hold, HoldAndRelease, Tap, Pulse",
+    "C13": "evaluate / kind of Chord and BlockBy, apply of AccumulateBy",
+    "C18": "apply of Negate, DeadZone (+ dead_zone), DeltaLerp, SwizzleAxis, Scale, DeltaScale, AccumulateBy",
+    "C20": "ActionValue::{dim, zero, as_bool, as_axis1d, as_axis2d, as_axis3d, convert, is_actuated}",
+}
+BRIDGE_TECH = (" + translation of the source's function bodies (%s) into Lean on every run (tools/rs2lean.py) with bridge theorems proving "
+               "the translated code equal to the model functions the property theorems are about")
+BRIDGE_TEXT = (" The bodies of %s are re-translated from /repo/src into Lean definitions on every run and proved equal to the model's "
+               "functions (BEI/Bridge/*.lean), so the theorems are re-checked against what the code says now; a body whose text leaves the "
+               "translator's subset falls back to the correspondence alone (recorded in the evidence).")
+
 def main():
     commits = subprocess.run(["git", "-C", "/repo", "log", "--format=%h %s", "621628f..HEAD"], capture_output=True, text=True).stdout.splitlines()
     hook_commits = [c.split()[0] for c in commits if "verif_hooks" in c]
     checks = []
     for pid in sorted(CLAIMED):
         tech, text, ref = CLAIMED[pid]
+        if pid in BRIDGE:
+            tech += BRIDGE_TECH % BRIDGE[pid]
+            text += BRIDGE_TEXT % BRIDGE[pid]
         checks.append({
             "property_id": pid,
             "quick_cmd": f"./check {pid} --tier quick",
@@ -151,6 +173,7 @@ def main():
             "name": "lean4-model+correspondence", "path": "/verif/lean, /verif/harness, /verif/check",
             "serves_properties": sorted(CLAIMED),
             "kind_free_text": "hand-written executable Lean 4 model with machine-checked property theorems; extractor-regenerated tables; "
+                              "Rust->Lean translation of the pure function bodies with bridge theorems (translated code = model); "
                               "differential correspondence against the real crate in a Bevy App",
         }],
         "checks": checks,
